@@ -181,7 +181,10 @@ pub fn plan(tier: Tier) -> Plan {
     }
     for p in super::c01::flat_pipes() {
       n_pipes += 1;
-      jobs.push(unsub_job(p.clone(), form, len + 1, 0));
+      // three hot inputs (two different hot inners): a queued inner that is
+      // started late and then cut needs five steps
+      let l = if p.n_inputs() >= 3 { len + 2 } else { len + 1 };
+      jobs.push(unsub_job(p.clone(), form, l, 0));
       n_pipes += 1;
       jobs.push(unsub_job(p.o1(Op1::Delay(1)), form, len, devs));
     }
